@@ -8,6 +8,8 @@ import (
 	"strconv"
 	"strings"
 
+	"golang.org/x/tools/go/ssa"
+
 	"verif/engine/spec"
 )
 
@@ -20,6 +22,9 @@ type SEnv struct {
 	pkg   *types.Package
 	dyn   map[string]string // static dynamic-type knowledge for interface-typed names
 	depth int
+	// cells: variables that live in memory cells (captured by closures): the name denotes the content of the cell in
+	// the state the expression is evaluated in; &name denotes the cell
+	cells map[string]Val
 }
 
 func (env *SEnv) child() *SEnv {
@@ -215,6 +220,11 @@ func (f *FnVC) specIdent(env *SEnv, e *spec.Expr, want types.Type) (Val, error) 
 	case "wlocked":
 		return Val{T: Term{"2", SInt}, Typ: lockStateType}, nil
 	}
+	if cell, ok := env.cells[e.Tok]; ok {
+		if pt, ok := unalias(cell.Typ).Underlying().(*types.Pointer); ok {
+			return f.loadAt(env.cur, cell, pt.Elem()), nil
+		}
+	}
 	if v, ok := env.names[e.Tok]; ok {
 		return v, nil
 	}
@@ -224,7 +234,40 @@ func (f *FnVC) specIdent(env *SEnv, e *spec.Expr, want types.Type) (Val, error) 
 			return f.specObject(env, o, want)
 		}
 	}
+	// a local variable of the function that is not in scope (not yet declared) at this program point: its value is
+	// arbitrary here, so whatever is claimed must hold for every value (conservative)
+	if t := f.localVarType(e.Tok); t != nil {
+		return f.freshVal("outofscope_"+e.Tok, t), nil
+	}
 	return Val{}, fmt.Errorf("unknown identifier %s", e.Tok)
+}
+
+// localVarType finds the declared type of a named local variable of the function under verification.
+func (f *FnVC) localVarType(name string) types.Type {
+	for _, b := range f.Fn.Blocks {
+		for _, in := range b.Instrs {
+			switch x := in.(type) {
+			case *ssa.Alloc:
+				if x.Comment == name {
+					return x.Type().(*types.Pointer).Elem()
+				}
+			case *ssa.Phi:
+				if x.Comment == name {
+					return x.Type()
+				}
+			case *ssa.DebugRef:
+				if o := x.Object(); o != nil && o.Name() == name {
+					if x.IsAddr {
+						if p, ok := unalias(x.X.Type()).Underlying().(*types.Pointer); ok {
+							return p.Elem()
+						}
+					}
+					return x.X.Type()
+				}
+			}
+		}
+	}
+	return nil
 }
 
 var lockStateType = types.NewNamed(types.NewTypeName(0, nil, "lockstate", nil), types.Typ[types.UnsafePointer], nil)
@@ -469,8 +512,11 @@ func (f *FnVC) specUnary(env *SEnv, e *spec.Expr, want types.Type) (Val, error) 
 		}
 		return Val{T: app(op, x.T.Sort, x.T), Typ: x.Typ}, nil
 	case "&":
-		// address of an address-taken local variable
+		// address of a variable living in a memory cell
 		if a := e.Args[0]; a.Op == "id" {
+			if cell, ok := env.cells[a.Tok]; ok {
+				return cell, nil
+			}
 			if av, ok := f.addrNames[a.Tok]; ok {
 				for it := f.curNode.it; it >= 0; it-- {
 					if pv, ok := f.vals[vkey{av, it}]; ok {
@@ -986,15 +1032,16 @@ func (env *SEnv) oldNames() map[string]Val {
 
 // bodyEnv: environment inside the function being verified at state st.
 func (f *FnVC) bodyEnv(st *State) *SEnv {
-	env := &SEnv{f: f, names: map[string]Val{}, cur: st, old: f.entry, pkg: f.Fn.Pkg.Pkg, dyn: map[string]string{}}
+	env := &SEnv{f: f, names: map[string]Val{}, cur: st, old: f.entry, pkg: f.Fn.Pkg.Pkg, dyn: map[string]string{}, cells: map[string]Val{}}
 	for k, v := range f.params {
 		env.names[k] = v
 	}
-	// captured variables and address-taken locals: the source name denotes the current content of the cell
+	// captured variables and address-taken locals: the source name denotes the content of the cell (evaluated lazily
+	// in the state of the expression), &name the cell
 	for _, fv := range f.Fn.FreeVars {
 		if pv, ok := f.vals[vkey{fv, 0}]; ok {
-			if pt, ok := unalias(fv.Type()).Underlying().(*types.Pointer); ok {
-				env.names[fv.Name()] = f.loadAt(st, pv, pt.Elem())
+			if _, ok := unalias(fv.Type()).Underlying().(*types.Pointer); ok {
+				env.cells[fv.Name()] = pv
 			}
 		}
 	}
@@ -1004,8 +1051,8 @@ func (f *FnVC) bodyEnv(st *State) *SEnv {
 		}
 		for it := f.curNode.it; it >= 0; it-- {
 			if pv, ok := f.vals[vkey{av, it}]; ok {
-				if pt, ok := unalias(av.Type()).Underlying().(*types.Pointer); ok {
-					env.names[name] = f.loadAt(st, pv, pt.Elem())
+				if _, ok := unalias(av.Type()).Underlying().(*types.Pointer); ok {
+					env.cells[name] = pv
 				}
 				break
 			}
@@ -1130,6 +1177,17 @@ func (f *FnVC) havocLoc(env *SEnv, st *State, e *spec.Expr) error {
 				return nil
 			case "everything":
 				f.havocAll(st)
+				return nil
+			case "fields":
+				// fields(T, f1, f2, ...): field f of ANY object of struct type T
+				keys, err := f.E.fieldsKeys(env.pkg, e.Args[1:])
+				if err != nil {
+					return err
+				}
+				seen := map[string]bool{}
+				for _, k := range keys {
+					f.havocModKey(st, k, seen)
+				}
 				return nil
 			}
 		}
